@@ -16,7 +16,7 @@ import vlib
 
 def run(rep, tier, seed):
     rep.assumptions += [
-        "documents in which a subtree that may be re-evaluated writes variables escaping it are excluded (their meaning under retry is exactly what the property leaves to the known finding LateEnv)",
+        "documents in which a subtree that may be re-evaluated writes variables escaping it are kept out of the scope / loop families and explored in the family escw, where the design machine is the reference (finding DeferredWrites)",
         "TLC bounds: see bounds; runner and expat projection trusted",
     ]
     cmp = interp.standard_compare()
@@ -40,11 +40,84 @@ def run(rep, tier, seed):
         st, tail = vlib.suite_traces()
         rep.notes["suite_run"] = tail
         vlib.validate_named_traces(rep, st, "c15suite", "suite", budget=400000)
+    # deferred subtrees that assign variables outliving them: the design machine is the reference
+    # for what the code does; where the machine itself departs from the reference meaning (the
+    # siblings after the deferred writer were rendered without its assignments) and the code
+    # agrees with the machine, that is the recorded finding DeferredWrites
+    def cmp_esc(rec, c, resp):
+        bad = cmp(rec, c, resp)
+        if bad is None and rec.get("esc") and (rec["res"] == "ok" or rec["ideal"] == "ok") \
+                and (rec["res"], rec["items"]) != (rec["ideal"], rec["iitems"]):
+            return ("DeferredWrites:items", f"rendered as the design machine predicts ({rec['res']}, {rec['items']}); the reference meaning is "
+                                            f"({rec['ideal']}, {rec['iitems']}): a variable assigned inside a deferred element is not seen by the elements after it")
+        return bad
+    re_ = interp.family_check(rep, "escw", tier, seed + 9, cmp_esc, dict(MaxNodes=5), dict(MaxNodes=5),
+                              sample_quick=4000, sample_thorough=40000, need_outcomes=("ok", "ok/retried"))
+    nesc = sum(1 for x in re_.replay if x["esc"])
+    ndiff = sum(1 for x in re_.replay if x["esc"] and x["res"] == "ok" and (x["items"] != x["iitems"]))
+    rep.notes["escw"] = {"documents": len(re_.replay), "with_deferred_writer": nesc, "machine_differs_from_reference": ndiff}
+    if not nesc or not ndiff or ndiff == nesc:
+        raise vlib.ToolError(f"family escw vacuous: {rep.notes['escw']}")
+    varref(rep, tier, seed)
     interp.negative_control(rep, "scope", "LeakScopeOnError", {"ScopeBalanced", "ResultIsIdeal", "CleanAtEnd"}, MaxNodes=3)
     interp.negative_control(rep, "scope", "LateEnv", {"ResultIsIdeal"}, MaxNodes=3)
     rep.notes["rule"] = ("every document of the scope / reuse families within MaxNodes, enumerated by TLC; case = "
                          "(document, wrapping); non-trivial = distinct abstract document")
     rep.notes["exhaustive"] = True
+
+
+VR_CH = {"e": "\u00e9"}
+VR_VAL = {"A": "7", "AB": "88", "A1": "604", "AU": "33", "E": "9.5", "BE": "12", "AE": "41"}
+VR_NAMES = {"a": "A", "ab": "AB", "a1": "A1", "a_": "AU", "\u00e9": "E", "b\u00e9": "BE", "a\u00e9": "AE"}
+
+
+def varref(rep, tier, seed):
+    """spec/VarRef.tla: which name a '$' reference denotes (longest run of name characters,
+    braces, non-ASCII letters, undefined names verbatim), under every way of defining the names"""
+    rnd = random.Random(seed + 77)
+    cfg = vlib.cfg_text(constants={"MaxLen": 5 if tier == "thorough" else 4}, invariants=["Verbatim", "NoNewDollar", "Export"])
+    r = vlib.run_tlc("MC_VarRef", cfg, "varref", workers=8, timeout=900)
+    if not r.ok:
+        raise vlib.ToolError(f"VarRef.tla: {r.violated}: specification error")
+    rep.add_tlc(r, "VarRef.tla: expansion of every string with a '$' up to MaxLen; Verbatim, NoNewDollar")
+    recs = r.replay
+    if tier != "thorough" and len(recs) > 6000:
+        recs = rnd.sample(recs, 6000)
+    conc = lambda toks: "".join(VR_VAL.get(t, VR_CH.get(t, t)) for t in toks)
+    defs = lambda scale: " ".join(f'{n}="{VR_VAL[v] if scale == 1 else "0" + VR_VAL[v]}"' for n, v in VR_NAMES.items())
+    cases = []
+    for j, c in enumerate(recs):
+        text = conc(c["s"])
+        probe = f'<rect id="p" wh="1" data-v="{text}"/>'
+        car = c["carrier"]
+        if car == "var":
+            xml = f"<svg><var {defs(1)}/>{probe}</svg>"
+        elif car == "g-attrs":
+            xml = f"<svg><g {defs(1)}>{probe}</g></svg>"
+        elif car == "reuse-attrs":
+            xml = f'<svg><specs><rect id="t" wh="1" data-v="{text}"/></specs><reuse id="p" href="#t" {defs(1)}/></svg>'
+        else:
+            # an outer definition of every name, shadowed inside the group
+            xml = f"<svg><var {defs(2)}/><g {defs(1)}>{probe}</g></svg>"
+        cases.append({"k": f"vr-{j}", "xml": xml, "cfg": {}, "case": c, "exp": conc(c["out"])})
+    res = vlib.run_cases([{"k": x["k"], "xml": x["xml"], "cfg": x["cfg"], "trace": False} for x in cases])
+    import geom
+    for x in cases:
+        rr = res[x["k"]]
+        rep.case(x["xml"])
+        car = x["case"]["carrier"]
+        if rr["status"] != "ok":
+            rep.violation(f"varref:{car}:{rr['status']}", {"xml": x["xml"], "err": vlib.trunc(rr.get("err")), "expected": x["exp"]})
+            continue
+        el = geom.find_by_id(rr["out"], "p")
+        got = el.attrs.get("data-v") if el is not None else None
+        if got != x["exp"]:
+            rep.violation(f"varref:{car}:value", {"xml": x["xml"], "expected": x["exp"], "got": got,
+                                                 "detail": "the text after substitution differs from the expansion VarRef.tla defines "
+                                                           "(longest name, braces, undefined names verbatim)"})
+        else:
+            rep.traces += 1
+    rep.bounds["varref"] = {"MaxLen": 5 if tier == "thorough" else 4, "cases": len(cases)}
 
 
 def replay(path):
